@@ -228,7 +228,7 @@ class StreamsInfoRead(Contract):
 
 
 # ------------------------------------------------------------------------------------- the `retrieve` class methods
-def _retrieve_contract(clsname, reader, extra=(), props=("C06",)):
+def _retrieve_contract(clsname, reader, extra=(), props=("C06",), returns_reader_result=False):
     """`<Class>.retrieve(file, ...)`: returns the object it has just instantiated (an instantiation never yields None:
     Python semantics), after exactly one call of the section reader ON THAT OBJECT with the caller's stream and
     arguments, and nothing else."""
@@ -264,7 +264,7 @@ def _retrieve_contract(clsname, reader, extra=(), props=("C06",)):
                 out += [
                     ("reader-runs-on-the-new-object", bool(calls[1].recv is obj)),
                     ("reader-gets-the-callers-stream-and-arguments", bool(len(calls[1].args) == len(want) and all(x is y for x, y in zip(calls[1].args, want)))),
-                    ("returns-the-new-object", bool(result is obj)),
+                    ("returns-what-the-reader-returns", bool(result is calls[1].result)) if returns_reader_result else ("returns-the-new-object", bool(result is obj)),
                 ]
             return out
 
@@ -281,3 +281,5 @@ FilesInfoRetrieve = _retrieve_contract("FilesInfo", "_read", props=("C06",))
 FolderRetrieve = _retrieve_contract("Folder", "_read", props=("C06",))
 HeaderRetrieve = _retrieve_contract("Header", "_read", extra=("buffer", "start_pos", "password"), props=("C06", "C04"))
 SignatureHeaderRetrieve = _retrieve_contract("SignatureHeader", "_read", props=("C06", "C04"))
+# PackInfo.retrieve is `return cls()._read(file)`: it hands back what the reader returns (PackInfo._read ends in `return self`)
+PackInfoRetrieve = _retrieve_contract("PackInfo", "_read", props=("C06",), returns_reader_result=True)
